@@ -92,6 +92,7 @@ func RunFamily(f *Family, o RunOpts) int {
 		per = 20
 	}
 	shards := max(o.Workers, (len(scns)+per-1)/per)
+	engine.PoolDeadline = o.Budget
 	err := engine.RunShardPool(shards, o.Workers, nil, 6*1024*1024, func(w int, line []byte) {
 		var probe map[string]json.RawMessage
 		if json.Unmarshal(line, &probe) != nil {
@@ -158,6 +159,10 @@ func RunFamily(f *Family, o RunOpts) int {
 	}
 	if agg.nondet > 0 {
 		fmt.Fprintf(os.Stderr, "harness note: %d replayed cycles were not reproducible (map-order / goroutine nondeterminism not owned by the harness); samples: %v\n", agg.nondet, agg.samples)
+	}
+	if engine.SkippedShards > 0 {
+		// shards that were not started because the check's deadline had passed: their scenarios count as skipped
+		agg.skipped += min(engine.SkippedShards*per, len(scns)-agg.scenarios)
 	}
 	exhaustive := agg.capHits == 0 && agg.skipped == 0
 	if len(agg.samples) == 0 {
